@@ -39,6 +39,11 @@ def _handle_cases(tier):
                             continue
                         yield {"tool": "tee", "family": "handle", "handle": "tee", "n": n, "started": list(started), "order": list(order),
                                "whole": False, "params": {}, "srcs": [{"kind": kind, "script": script}], "fns": [], "cons": {"fin": "close"}}
+                        # ... and with the surviving children advanced `mid` more items after every individual close
+                        for mid in (1, 2):
+                            yield {"tool": "tee", "family": "handle", "handle": "tee", "n": n, "started": list(started), "order": list(order),
+                                   "mid": mid, "whole": False, "params": {}, "srcs": [{"kind": kind, "script": script}], "fns": [],
+                                   "cons": {"fin": "close"}}
                     yield {"tool": "tee", "family": "handle", "handle": "tee", "n": n, "started": list(started), "order": [], "whole": True,
                            "params": {}, "srcs": [{"kind": kind, "script": script}], "fns": [], "cons": {"fin": "close"}}
 
@@ -82,6 +87,11 @@ def _observe_handle(case):
                 res = drive(kids[i].aclose())
                 out["errors"].append(exc_name(res.exc))
                 out["released_after"].append(states[0].released())
+                for k in case["order"][j + 1:]:
+                    for _ in range(case.get("mid", 0)):
+                        res = drive(kids[k].__anext__())
+                        if res.exc is not None and not isinstance(res.exc, StopAsyncIteration):
+                            out["errors"].append(exc_name(res.exc))
     out["srcs"] = [st.summary() for st in states]
     out["async"] = {"out": ["closed"], "vis": log, "srcs": out["srcs"]}
     return out
@@ -130,7 +140,7 @@ def _judge_handle(case, obs):
     if h == "tee" and not case["whole"] and obs["released_after"]:
         early = [j for j, r in enumerate(obs["released_after"][:-1]) if r]
         src_len = len(case["srcs"][0]["script"])
-        exhausted_by_children = any(a > src_len for a in case["started"])
+        exhausted_by_children = any(a > src_len for a in case["started"]) or case.get("mid")
         if early and not exhausted_by_children and obs["srcs"][0]["ended"] == 0:
             issues.append(Issue("oracle", {"released_after": obs["released_after"], "order": case["order"]},
                                 "tee-closed-source-before-last-child-done"))
